@@ -1,9 +1,10 @@
-\* C24 leg A thorough: 5 requests, max 1..3, all interleavings; driver scripts: <= 4 requests, <= 7 ops, max 1 and 2
+\* C24 leg A thorough (1): 4 requests, max 1..3, all interleavings, safety + liveness;
+\* driver scripts: <= 4 requests, <= 6 ops, max 1 and 2 (807 scripts)
 SPECIFICATION Spec
-CONSTANTS NReq = 5
+CONSTANTS NReq = 4
           MaxSet = {1, 2, 3}
           DoneOnFailedStart = FALSE
-          CaseLen = 7
+          CaseLen = 6
           CaseReq = 4
           CaseMaxSet = {1, 2}
 INVARIANTS WithinLimitInv NoPanic SlotsExact
